@@ -924,7 +924,7 @@ package starlark
 //@ func Binary
 //@   prop C12 C04 C13 C10 C02
 //@   ensures [C02] huge_left_shift_refused: op == syntax.LTLT && typeis(x, Int) && typeis(y, Int) && val(as(y, Int)) >= 512 ==> result1 != nil
-//@   ensures [C10] right_shift_is_exact: op == syntax.GTGT && typeis(x, Int) && typeis(y, Int) && 0 <= val(as(y, Int)) && val(as(y, Int)) <= MAX32 ==> result1 == nil && typeis(result0, Int) && val(as(result0, Int)) == rsh(val(as(x, Int)), val(as(y, Int)))
+//@   ensures [C10] int_operators_are_exact: (op == syntax.PLUS && typeis(x, Int) && typeis(y, Int) ==> result1 == nil && typeis(result0, Int) && val(as(result0, Int)) == val(as(x, Int)) + val(as(y, Int))) && (op == syntax.MINUS && typeis(x, Int) && typeis(y, Int) ==> result1 == nil && typeis(result0, Int) && val(as(result0, Int)) == val(as(x, Int)) - val(as(y, Int))) && (op == syntax.STAR && typeis(x, Int) && typeis(y, Int) ==> result1 == nil && typeis(result0, Int) && val(as(result0, Int)) == val(as(x, Int)) * val(as(y, Int))) && (op == syntax.SLASHSLASH && typeis(x, Int) && typeis(y, Int) && val(as(y, Int)) != 0 ==> result1 == nil && typeis(result0, Int) && val(as(result0, Int)) == floordiv(val(as(x, Int)), val(as(y, Int)))) && ((op == syntax.SLASHSLASH || op == syntax.PERCENT) && typeis(x, Int) && typeis(y, Int) && val(as(y, Int)) == 0 ==> result1 != nil) && (op == syntax.PERCENT && typeis(x, Int) && typeis(y, Int) && val(as(y, Int)) != 0 ==> result1 == nil && typeis(result0, Int) && inrem(val(as(result0, Int)), val(as(y, Int))) && val(as(x, Int)) - val(as(result0, Int)) == val(as(y, Int)) * fdq(val(as(x, Int)), val(as(y, Int)))) && (op == syntax.LTLT && typeis(x, Int) && typeis(y, Int) && 0 <= val(as(y, Int)) && val(as(y, Int)) < 512 ==> result1 == nil && typeis(result0, Int) && val(as(result0, Int)) == lsh(val(as(x, Int)), val(as(y, Int)))) && (op == syntax.AMP && typeis(x, Int) && typeis(y, Int) ==> result1 == nil && typeis(result0, Int) && val(as(result0, Int)) == bitand(val(as(x, Int)), val(as(y, Int)))) && (op == syntax.PIPE && typeis(x, Int) && typeis(y, Int) ==> result1 == nil && typeis(result0, Int) && val(as(result0, Int)) == bitor(val(as(x, Int)), val(as(y, Int)))) && (op == syntax.CIRCUMFLEX && typeis(x, Int) && typeis(y, Int) ==> result1 == nil && typeis(result0, Int) && val(as(result0, Int)) == bitxor(val(as(x, Int)), val(as(y, Int)))) && (op == syntax.GTGT && typeis(x, Int) && typeis(y, Int) && 0 <= val(as(y, Int)) && val(as(y, Int)) <= MAX32 ==> result1 == nil && typeis(result0, Int) && val(as(result0, Int)) == rsh(val(as(x, Int)), val(as(y, Int))))
 //@   assert /return NewList\(z\), nil/ [C04,C13] list_concatenation_is_a_fresh_copy: len(z) == len(x.elems) + len(y.elems) && (len(z) > 0 ==> freshobj(storeof(z))) && forall(k, 0, len(x.elems), z[k] == x.elems[k]) && forall(k, 0, len(y.elems), z[len(x.elems) + k] == y.elems[k])
 //@   assert /return z, nil/ [C13] tuple_concatenation_is_a_fresh_copy: len(z) == len(x) + len(y) && (len(z) > 0 ==> freshobj(storeof(z))) && forall(k, 0, len(x), z[k] == x[k]) && forall(k, 0, len(y), z[len(x) + k] == y[k])
 //@   assert /return x.Difference\(iter\)/ left_operand_is_the_receiver: x == as(param(x), *Set)
@@ -988,6 +988,25 @@ package starlark
 // Int.Rsh computes (floor division by 2^y, for negative x too) -- there is no count beyond
 // which the result is "simply zero"
 //@ specfn rsh(v int, k int) int
+//@ specfn lsh(v int, k int) int
+//@ specfn bitand(a int, b int) int
+//@ specfn bitor(a int, b int) int
+//@ specfn bitxor(a int, b int) int
+// (what the bit operations of Int compute on unbounded two's-complement integers is named by these
+// abstract functions: the small-int fast paths and math/big are trusted to agree with them; what is
+// checked is that the operators reach the right operation with the right operands)
+//@ func Int.Lsh
+//@   prop C10
+//@   abstraction shift: val(result) == lsh(val(x), y)
+//@ func Int.And
+//@   prop C10
+//@   abstraction bits: val(result) == bitand(val(x), val(y))
+//@ func Int.Or
+//@   prop C10
+//@   abstraction bits: val(result) == bitor(val(x), val(y))
+//@ func Int.Xor
+//@   prop C10
+//@   abstraction bits: val(result) == bitxor(val(x), val(y))
 //@ func Int.Rsh
 //@   prop C10
 //@   abstraction floor_shift: val(result) == rsh(val(x), y)
